@@ -413,6 +413,21 @@ func RunC07(rep *explore.Report, tier string) {
 		mapDev = 2
 	}
 	rep.Set("map_order_deviation_bound_per_operation", int64(mapDev))
+	// scenes first, alone in the process (see scene.go)
+	before := rep.ViolationCount()
+	func() {
+		runtime.LockOSThread()
+		defer runtime.UnlockOSThread()
+		for _, c := range SceneGrid(tier) {
+			(&c07run{cfg: c, rep: rep}).explore(400000)
+			rep.Add("scene_configurations", 1)
+		}
+	}()
+	sceneCoverage(rep)
+	if rep.ViolationCount() > before {
+		rep.Cap("a scene configuration violated the property: the rest of the check was skipped")
+		return
+	}
 	ch := make(chan *Config)
 	var wg sync.WaitGroup
 	for w := 0; w < numCPU(); w++ {
